@@ -8,21 +8,15 @@ open Conc
 
 /-- The breaches of the lock discipline that the unchanged tree is known to contain, enumerated one by one
 (implementation, method performing the access, access, lock mode at that point, reached through `expire`).
-Three families (a fourth, `cachedRules` read and written with no lock in `Add`, `rem`, `FindCachedRules`, was repaired in
+Two families (a third, the storage calls, and a fourth, `cachedRules` read and written with no lock in `Add`, `rem`, `FindCachedRules`, was repaired in
 /repo by giving the cache its own mutex: the regenerated table now shows those accesses inside `lock2 "cacheMutex"`
 sections of the helper methods, and they are no longer excepted — if they come back they are new breaches):
-* the storage call of `Add` (both), of linear `Rem`/`Clear`/`Delete` is outside the exclusive section that
-  updates memory;
+* (repaired in /repo, no longer excepted: the storage call of `Add` (both), of linear `Rem`/`Clear`/`Delete` used to be
+  outside the exclusive section that updates memory; see `memory_store_agree`)
 * `expire → rem` mutates memory, the indexes, the cache and storage under the *shared* lock (from `Search`,
   `FindRules`) or under no lock at all (from `Get`, after it released its shared lock);
 * `FindRules.Do` writes `rule.Id` on the `*Rule` objects shared through `cachedRules`. -/
 def knownExceptions : List Viol := [
-  -- storage updated outside the exclusive section that updates memory
-  ⟨"indexed", "Add", .store "Add", .none, false⟩,
-  ⟨"linear", "Add", .store "Add", .none, false⟩,
-  ⟨"linear", "rem[lock=true]", .store "Remove", .none, false⟩,
-  ⟨"linear", "Clear", .store "Clear", .none, false⟩,
-  ⟨"linear", "Delete", .store "Delete", .none, false⟩,
   -- expire → rem under the shared lock (Search, FindRules)
   ⟨"indexed", "unindexRule", .wr .ruleIndex, .r, true⟩,
   ⟨"indexed", "rem", .wr .mem, .r, true⟩,
